@@ -1,5 +1,6 @@
 """C07 - MIDI file save then load preserves every track (E1 + exhaustive
 byte-level mutation of valid files for the fixed-point clause)."""
+import io
 import itertools
 
 from .. import common
@@ -220,7 +221,112 @@ def worker(shard):
                     'with != 1 track'}, cap=1)
     elif kind == 'mutate':
         _mutations(mido, acc, shard[1], shard[2], shard[3])
+    elif kind == 'entry':
+        entry_points(mido, acc)
     return acc
+
+
+def entry_points(mido, acc):
+    """The other ways in and out: save(filename) as str and pathlib.Path,
+    MidiFile(filename) / MidiFile(file=...), a charset for the text, a file
+    object that accepts a few bytes per write."""
+    import os
+    import pathlib
+    import shutil
+    d = common.scratch_dir()
+
+    class Dribble(io.BytesIO):
+        # a binary stream may take fewer bytes than offered only for raw
+        # streams; a BufferedIOBase takes all - this one records the calls
+        def __init__(self):
+            super().__init__()
+            self.calls = 0
+
+        def write(self, b):
+            self.calls += 1
+            return super().write(b)
+
+    try:
+        spec_sets = [[[(s, 1), ('on0', 2)]] for s in SYMBOLS]
+        spec_sets += [[[('text1', 0), ('on0', 3)], [('sysex1', 1)], []]]
+        for i, specs in enumerate(spec_sets):
+            for type_ in (1, 2):
+                acc.evals += 1
+                acc.nontrivial += 1
+                case = {'kind': 'entry', 'type': type_,
+                        'tracks': [[list(x) for x in sp] for sp in specs]}
+                try:
+                    mf = build_file(mido, type_, 480, specs)
+                    want = [normalised_sigs(mido, t) for t in mf.tracks]
+                    ref_bytes = save_bytes(mf)
+                    p1 = os.path.join(d, f'a{i}.mid')
+                    mf.save(p1)
+                    p2 = pathlib.Path(d) / f'b{i}.mid'
+                    mf.save(filename=p2)
+                    drib = Dribble()
+                    mf.save(file=drib)
+                    outs = {'save(str)': open(p1, 'rb').read(),
+                            'save(filename=Path)': p2.read_bytes(),
+                            'save(file=recording stream)': drib.getvalue()}
+                    for name, b in outs.items():
+                        if b != ref_bytes:
+                            acc.violation(f'entry/{name}/bytes-differ',
+                                          f'{short(case)}: {name} wrote '
+                                          f'{b.hex()[:120]}, save(file=BytesIO) '
+                                          f'{ref_bytes.hex()[:120]}', case)
+                    with open(p1, 'rb') as fh:
+                        loads = {'MidiFile(str)': mido.MidiFile(p1),
+                                 'MidiFile(filename=Path)':
+                                     mido.MidiFile(filename=p2),
+                                 'MidiFile(file=open file)':
+                                     mido.MidiFile(file=fh)}
+                    for name, back in loads.items():
+                        got = [track_sigs(t) for t in back.tracks]
+                        if got != want or back.type != type_ or \
+                                back.ticks_per_beat != 480:
+                            acc.violation(f'entry/{name}/differs',
+                                          f'{short(case)}: {name} gave '
+                                          f'{short(got, 300)}', case)
+                except Exception as e:
+                    acc.violation(f'entry/raises/{type(e).__name__}',
+                                  f'{short(case)}: {e!r}', case)
+        # text in the file's charset
+        for cs, text in (('utf-8', 'caf\xe9 \u65e5\u672c'), ('cp1252', '\u20ac5'),
+                         ('shift_jis', '\u65e5\u672c'), ('utf-16', 'ab\xe9'),
+                         ('latin1', '\xe9\xff')):
+            for via in ('file', 'filename'):
+                acc.evals += 1
+                acc.nontrivial += 1
+                case = {'kind': 'entry', 'charset': cs, 'via': via}
+                try:
+                    tr = mido.MidiTrack([
+                        mido.MetaMessage('track_name', name=text, time=1),
+                        mido.Message('note_on', note=1, time=2),
+                        mido.MetaMessage('lyrics', text=text * 3, time=0)])
+                    mf = mido.MidiFile(type=1, charset=cs, tracks=[tr])
+                    want = [normalised_sigs(mido, t) for t in mf.tracks]
+                    if via == 'file':
+                        back = load_bytes(mido, save_bytes(mf), charset=cs)
+                    else:
+                        p = os.path.join(d, f'c-{cs}.mid')
+                        mf.save(p)
+                        back = mido.MidiFile(p, charset=cs)
+                    got = [track_sigs(t) for t in back.tracks]
+                    if got != want:
+                        acc.violation(f'entry/charset/{cs}',
+                                      f'text {text!a} with charset {cs} via '
+                                      f'{via}: loaded {short(got, 300)}', case)
+                except Exception as e:
+                    acc.violation(f'entry/charset/{cs}/{type(e).__name__}',
+                                  f'text {text!a} with charset {cs} via {via}: '
+                                  f'{e!r}', case)
+        acc.sample({'entry_points': ['save(str)', 'save(filename=Path)',
+                                     'save(file=stream)', 'MidiFile(str)',
+                                     'MidiFile(filename=Path)',
+                                     'MidiFile(file=open file)', 'charset=']},
+                   cap=1)
+    finally:
+        shutil.rmtree(d, ignore_errors=True)
 
 
 # ---------------------------------------------------------------- fixed point
@@ -250,19 +356,28 @@ def base_files(mido):
     return out
 
 
-def fixed_point(mido, data, acc, label):
+def fixed_point(mido, data, acc, label, clip=None):
     """If data loads: save(load) must succeed (or refuse for a stated
-    reason), reload equal, and be a byte-level fixed point from then on."""
+    reason), reload equal, and be a byte-level fixed point from then on.
+    Also with the reader's clip option (data bytes above 127 become 127)."""
+    if clip is None:
+        fixed_point(mido, data, acc, label, False)
+        fixed_point(mido, data, acc, label, True)
+        return
+    kw = {'clip': True} if clip else {}
+    if clip:
+        label += '/clip=True'
     acc.evals += 1
     try:
-        f1 = load_bytes(mido, data)
+        f1 = load_bytes(mido, data, **kw)
         sig1 = [track_sigs(t) for t in f1.tracks]
         norm1 = [normalised_sigs(mido, t) for t in f1.tracks]
     except Exception:
         return                      # does not load: nothing is required
     acc.nontrivial += 1
     acc.count('mutants_that_load')
-    case = {'kind': 'fixed-point', 'bytes': bytes(data).hex(), 'label': label}
+    case = {'kind': 'fixed-point', 'bytes': bytes(data).hex(), 'label': label,
+            'clip': clip}
     unstorable = (f1.type == 0 and len(f1.tracks) != 1) or any(
         m.type in ref.REALTIME for t in f1.tracks for m in t)
     try:
@@ -284,7 +399,7 @@ def fixed_point(mido, data, acc, label):
                       f'but save did not raise', case)
         return
     try:
-        f2 = load_bytes(mido, b2)
+        f2 = load_bytes(mido, b2, **kw)
     except Exception as e:
         acc.violation(f'fixed-point/reload-raises/{type(e).__name__}',
                       f'{label}: save(load(b)) does not load: {e!r}; first load '
@@ -337,7 +452,8 @@ def run():
                  'unstorable contents, and every single-byte mutation / '
                  'truncation / deletion / duplication of base files')
     n1 = 4 if thorough else 3
-    shards = [('refuse',), ('lengths', (999000,) if thorough else ())]  # reader limit: 1e6 bytes per message
+    shards = [('refuse',), ('entry',),
+              ('lengths', (999000,) if thorough else ())]  # reader limit: 1e6 bytes per message
     for type_ in (0, 1):
         shards += [('one', type_, s, n1, 2) for s in SYMBOLS]
     n2 = 2
@@ -383,8 +499,12 @@ def check_case(case):
     if case['kind'] == 'roundtrip':
         specs = [[tuple(x) for x in sp] for sp in case['tracks']]
         check_roundtrip(mido, case['type'], case['tpb'], specs, acc)
+    elif case['kind'] == 'entry':
+        entry_points(mido, acc)
     elif case['kind'] == 'fixed-point':
-        fixed_point(mido, bytes.fromhex(case['bytes']), acc, case['label'])
+        fixed_point(mido, bytes.fromhex(case['bytes']), acc,
+                    case['label'].replace('/clip=True', ''),
+                    case.get('clip', False))
     else:
         return [(k, v[0][1]) for k, v in worker(('refuse',)).viol.items()]
     return [(k, v[0][1]) for k, v in acc.viol.items()]
